@@ -316,6 +316,45 @@ def union_agreement(u, ct, F):
             good = f"{g0['call']['name']}(member) == {g0['call']['name']}(type) with an injective naming function"
     if good:
         inst.append(good)
+        # the member's variant must still be what was read when it is compared: no mutable access to it in between
+        # (`std::mem::take(&mut name)` while building the value leaves an emptied name that never equals the `type` entry)
+        mv = set()
+        for kb, kt in fkeys:
+            dl = place_local(kt["dest"])
+            for x in range(len(b.d["locals"])):
+                if x != dl and dt.derives_from_call(b, {"cp": x}, kb, vt) and ty_adt(strip_refs(b.local_ty(x) or {})) == u.variant_adt:
+                    mv.add(x)
+        muts = []
+
+        def mutated_through(ref_local, seen_):
+            """the mutable reference (or a reborrow / projection of it) is handed to a call or written through"""
+            if ref_local in seen_:
+                return None
+            seen_.add(ref_local)
+            for ubb, uj, it in dt.uses_of_local(b, ref_local):
+                if uj == "T":
+                    if "call" in it:
+                        return it.get("ln")
+                    continue
+                r2 = it["r"]
+                if ("ref" in r2 and r2.get("mut")) or "use" in r2:
+                    hit = mutated_through(place_local(it["d"]), seen_)
+                    if hit:
+                        return hit
+            for bb2, j2, s2 in b.stmts():
+                if not isinstance(s2["d"], int) and s2["d"]["l"] == ref_local and "*" in s2["d"]["p"]:
+                    return s2["ln"]
+            return None
+        for bb_, j_, s_ in b.stmts():
+            r_ = s_["r"]
+            if r_.get("mut") and "ref" in r_ and place_local(r_["ref"]) in mv and cfg.dominates(fkeys[0][0], bb_):
+                hit = mutated_through(place_local(s_["d"]), set())
+                if hit:
+                    muts.append(hit)
+            if not isinstance(s_["d"], int) and s_["d"]["p"] and place_local(s_["d"]) in mv and cfg.dominates(fkeys[0][0], bb_):
+                muts.append(s_["ln"])
+        if muts:
+            problems.append(("member-variant-mutated", f"the member's variant value is mutably accessed (lines {sorted(set(muts))[:4]}) between being read and being compared with the `type` entry: the comparison no longer sees the name that was read"))
     else:
         problems.append(("member-first-agreement", why))
     return inst, problems
